@@ -10,6 +10,7 @@ from vlib import gen
 from vlib.common import HarnessError, Violation, new_dir, rm_dir
 from vlib.crash import (
     KILL_EXIT,
+    WARM_UPS,
     FaultAt,
     KillAt,
     PointCounter,
@@ -76,6 +77,12 @@ class Prepared:
                 self.rop = getattr(world, 'r_' + op['k'])(op)
                 if self.rop is not None:
                     self.rop['op'] = op['k']
+                    self.rop['prop_id'] = prop
+                    # what the same handle did before (see vlib.crash.warm_up); `repack` may remove the pack a repack_pack names
+                    prelude = [(op['b'] // 7) % 8, (op['b'] // 56) % 8][: 1 + op['b'] % 2]
+                    if op['k'] == 'repack_pack':
+                        prelude = [p for p in prelude if p != 1]
+                    self.rop['prelude'] = [p for p in prelude if p % 8 not in (0, 6, 7)]
         finally:
             world.close()
         if self.rop is not None:
@@ -100,7 +107,7 @@ class Prepared:
     def describe(self):
         rop = self.rop
         out = {'op': rop['op']}
-        for name in ('mode', 'compress', 'no_holes', 'read_twice', 'clean_loose_per_pack', 'validate_objects', 'do_fsync', 'api',
+        for name in ('prelude', 'mode', 'compress', 'no_holes', 'read_twice', 'clean_loose_per_pack', 'validate_objects', 'do_fsync', 'api',
                      'vacuum', 'pack', 'iterable', 'budget', 'via', 'callback'):
             if name in rop:
                 out[name] = rop[name]
@@ -177,5 +184,5 @@ def select_points(points, limit, pick):
     return sorted(chosen)[: limit + 50], False
 
 
-__all__ = ['KILL_EXIT', 'FaultAt', 'KillAt', 'PowerLossAt', 'MUTATING_KINDS', 'Prepared', 'counting_run', 'copy_state', 'fsync_safe',
+__all__ = ['KILL_EXIT', 'WARM_UPS', 'FaultAt', 'KillAt', 'PowerLossAt', 'MUTATING_KINDS', 'Prepared', 'counting_run', 'copy_state', 'fsync_safe',
            'inspect_state', 'remove_stale_locks', 'run_in_child', 'select_points', 'snapshot_run', 'strategy']
